@@ -37,6 +37,7 @@ class Interp(ExprMixin, CallMixin):
         self._entry_cache = {}
         self._abstract = None
         self.tagged_sites = {}
+        self._lambda_active = {}
 
     # ------------------------------------------------------------ attr index
     def _build_attr_index(self):
@@ -409,6 +410,10 @@ class Interp(ExprMixin, CallMixin):
 
     def s_Assign(self, s, st, frame):
         v = self.eval(s.value, st, frame)
+        if isinstance(s.value, ast.Call) and isinstance(s.value.func, ast.Attribute) and \
+                s.value.func.attr == "is_deterministic" and isinstance(s.value.func.value, ast.Name):
+            # flag = x.is_deterministic(): a later test of the flag refines x (typestate DET)
+            v = v.with_quals({("DET_TEST_OF", s.value.func.value.id)})
         if st.ctrl:
             v = v.with_deps(st.ctrl)
         for tgt in s.targets:
